@@ -1,8 +1,9 @@
 #!/bin/bash
 # Runs the repository's own test-suite with the verification guard OFF (plain /repo/_build, no -DGSTLEARN_VERIF).
 set -o pipefail
-B=/repo/_build
-[ -f $B/build.ninja ] || cmake -S /repo -B $B -G Ninja -DCMAKE_BUILD_TYPE=RelWithDebInfo -DBUILD_TESTING=ON -DCMAKE_POLICY_VERSION_MINIMUM=3.5 -DCMAKE_CXX_FLAGS=-Wno-error -DCMAKE_C_FLAGS=-Wno-error > /tmp/baseline_conf.log 2>&1
+R=${BASELINE_REPO:-/repo}   # another tree (scratch worktree with candidate fixes) can be tested with BASELINE_REPO=<dir>
+B=$R/_build
+[ -f $B/build.ninja ] || cmake -S $R -B $B -G Ninja -DCMAKE_BUILD_TYPE=RelWithDebInfo -DBUILD_TESTING=ON -DCMAKE_POLICY_VERSION_MINIMUM=3.5 -DCMAKE_CXX_FLAGS=-Wno-error -DCMAKE_C_FLAGS=-Wno-error > /tmp/baseline_conf.log 2>&1
 cmake --build $B -j"$(nproc)" -- -k0 > /tmp/baseline_build.log 2>&1 || { echo "baseline build failed"; tail -30 /tmp/baseline_build.log; exit 1; }
 ctest --test-dir $B -j8 --timeout 900 --output-junit /tmp/baseline_junit.xml 2>&1 | tail -40
 # the *_cmp tests diff an output file that their companion test writes; under -j8 on a loaded machine the diff can run
